@@ -166,6 +166,15 @@ Theorem C02_pinned_refuses_full_buffer :
 Proof. exact pinned_refuses_full_buffer. Qed.
 Print Assumptions C02_pinned_refuses_full_buffer.
 
+(* pinned Bridge.Start read b.targetForwarder inside its goroutines: under the schedule [0;0] with the source end at EOF the
+   bridge is already closed (forwarder nil) when direction 1 has not yet taken its reader — the real code then dereferences
+   nil and the process dies (reproduced by the harness' startrace mode) *)
+Theorem C02_pinned_start_pick_after_close_refuted :
+  exists sched, let s := bridge_run Sliced 1048576 None [] [] [{| r_data := [170]%N; r_end := RNone |}] [] sched in
+    s_closed (fst s) = true /\ nth_error (snd s) 1 = Some (b_init true [{| r_data := [170]%N; r_end := RNone |}] []).
+Proof. exact pinned_start_pick_after_close_refuted. Qed.
+Print Assumptions C02_pinned_start_pick_after_close_refuted.
+
 (* ---------------- non-vacuity ---------------- *)
 
 (* a concrete interleaved two-way run under a limiter with burst 2 meets every premise of (2): both directions
